@@ -37,7 +37,13 @@ type Injected struct {
 	AtStep  int    `json:"atStep"`  // 1-based step index
 	AtState string `json:"atState"` // sub-state at which the event fires (first time it is persisted)
 	Action  string `json:"action"`  // rollback | v3 | delete | disable | scale:<n> | pause | unpause | jump:<n> | plan:<spec> | rolloutid | restart
-	fired   bool
+	// AtFinalising, if set, makes the event fire when the Rollout persists this finalising task ("*" = any unfinished one)
+	// instead of at (AtStep, AtState): a second user action arriving while a cleanup sequence is in flight.
+	AtFinalising string `json:"atFinalising,omitempty"`
+	// Immediate: the action is performed at the very instant the trigger state is observed (before any other actor
+	// moves); otherwise it is queued and competes with the controllers for the next scheduler slots.
+	Immediate bool `json:"immediate,omitempty"`
+	fired     bool
 }
 
 // Scenario is a complete, seed-determined description of one closed-loop run.
@@ -48,6 +54,12 @@ type Scenario struct {
 	Replicas    int32      `json:"replicas"`
 	Steps       []Step     `json:"steps"`
 	RolloutID   bool       `json:"rolloutID,omitempty"`
+	// PartitionLimit is the operator flag --partition-percent-limit (0 = its default, 50): the largest replicas
+	// percentage of a partition-style step that may also configure traffic.
+	PartitionLimit int `json:"partitionLimit,omitempty"`
+	// RollbackInBatch sets the rollouts.kruise.io/rollback-in-batch annotation: a rollback walks the plan again
+	// instead of cancelling (CloneSet without traffic routing only).
+	RollbackInBatch bool `json:"rollbackInBatch,omitempty"`
 	NoCanarySvc bool       `json:"disableGenerateCanaryService,omitempty"`
 	Events      []Injected `json:"events,omitempty"`
 	Pre         []string   `json:"pre,omitempty"` // user actions performed after setup, before the release
@@ -74,7 +86,14 @@ func (s *Scenario) Sig() string {
 		if i := strings.Index(a, ":"); i > 0 {
 			a = a[:i]
 		}
-		ev = append(ev, fmt.Sprintf("%s@%d/%s", a, e.AtStep, e.AtState))
+		at := fmt.Sprintf("%d/%s", e.AtStep, e.AtState)
+		if e.AtFinalising != "" {
+			at = "fin:" + e.AtFinalising
+		}
+		if e.Immediate {
+			at += "!"
+		}
+		ev = append(ev, fmt.Sprintf("%s@%s", a, at))
 	}
 	shape := ""
 	for _, st := range s.Steps {
@@ -95,6 +114,12 @@ func (s *Scenario) Sig() string {
 	}
 	if len(s.Pre) > 0 {
 		ev = append(ev, "pre:"+strings.Join(s.Pre, "+"))
+	}
+	if s.RollbackInBatch {
+		ev = append(ev, "rollback-in-batch")
+	}
+	if s.PartitionLimit > 0 {
+		ev = append(ev, fmt.Sprintf("partition-limit=%d", s.PartitionLimit))
 	}
 	return fmt.Sprintf("%s/%s/%s/%s/%s", s.Kind, s.Style, s.Provider, shape, strings.Join(ev, ","))
 }
@@ -132,6 +157,9 @@ func (s *Scenario) BuildRollout() *v1beta1.Rollout {
 		ro.Spec.WorkloadRef = v1beta1.ObjectRef{APIVersion: "apps.kruise.io/v1alpha1", Kind: "DaemonSet", Name: s.Name}
 	}
 	ro.Spec.Strategy = s.BuildStrategy(s.Steps)
+	if s.RollbackInBatch {
+		ro.Annotations = map[string]string{"rollouts.kruise.io/rollback-in-batch": "true"}
+	}
 	return ro
 }
 
@@ -420,6 +448,11 @@ func GenScenario(rng *rand.Rand, family string) *Scenario {
 	}
 	// keep the plan inside what the validating webhook accepts
 	realPartition := !(s.Style == "bluegreen" || (s.Kind == "deployment" && s.Style == "canary"))
+	limit := 50
+	if realPartition && s.HasTraffic() && rng.Intn(4) == 0 {
+		s.PartitionLimit = 100
+		limit = 100
+	}
 	for i := range s.Steps {
 		st := &s.Steps[i]
 		if s.Style != "bluegreen" && st.Traffic == 0 {
@@ -428,7 +461,7 @@ func GenScenario(rng *rand.Rand, family string) *Scenario {
 		if realPartition && strings.HasSuffix(st.Replicas, "%") && (st.Traffic >= 0 || st.Match != "") {
 			var p int
 			fmt.Sscanf(st.Replicas, "%d%%", &p)
-			if p > 50 {
+			if p > limit {
 				st.Traffic, st.Match = -1, ""
 			}
 		}
